@@ -644,8 +644,10 @@ Next ==
                            THEN {V(ev, {"C19"}, "a basis written with -b is not accepted as optimal when read back with -B (exit " \o ToString(ev.exit2) \o ", " \o ev.status2 \o ")")} ELSE {})
                 /\ UNCHANGED <<st, slot, ans, glob>>
           ELSE IF ev.call = "esolver_bad" THEN
-             \* unreadable / malformed file: non-zero exit, no signal
-             /\ viol' = viol \cup (IF ev.exit > 0 /\ ev.exit < 126 THEN {} ELSE {V(ev, {"C19"}, "esolver on a malformed/unreadable file: exit status " \o ToString(ev.exit))})
+             \* a file outside the generated language: esolver must agree with the library's reader (the read_prob just before on handle h):
+             \* rejected by the reader -> non-zero exit, no signal;  accepted (with warnings) -> a normal run, exit 0
+             /\ viol' = viol \cup (IF st[ev.h].live THEN (IF ev.exit = 0 THEN {} ELSE {V(ev, {"C19"}, "esolver exits " \o ToString(ev.exit) \o " on a file the library reads (" \o ev.file \o ")")})
+                                   ELSE IF ev.exit > 0 /\ ev.exit < 126 THEN {} ELSE {V(ev, {"C19"}, "esolver on a malformed/unreadable file: exit status " \o ToString(ev.exit))})
              /\ UNCHANGED <<st, slot, ans, glob>>
           ELSE IF ev.call = "determinism" THEN
              /\ viol' = viol \cup (IF ev.digest1 = ev.digest2 THEN {} ELSE {V(ev, {"C17"}, "two executions of the same scenario in fresh processes differ (first difference at event " \o ToString(ev.first) \o ": " \o ev.what \o ")")})
